@@ -249,7 +249,7 @@ def tool_family(ck, rnd, tier, bd, wd, trace, owner):
         for (k, role), n in sorted(cnt.items()):
             ks = range(1, n + 1) if (tier == "thorough" or n <= 6) else sorted(set([1, 2, n, n // 2] + rnd.sample(range(1, n + 1), 3 if ri < 2 or ri == 3 else 1)))
             for nth in ks:
-                for a in ERRS + ([-1] if k in "rw" else []):          # every errno matters: code may special-case one (EINTR retries)
+                for a in ERRS + ([-1] if k in "rw" else []) + ([0] if (k == "r" and tool.startswith("unzck")) else []):   # every errno matters: code may special-case one (EINTR retries); a read returning 0: the file stops there (for unzck, whose input says how long it is; for zck's raw input that IS the end of the input)
                     faults.append((ri, [(k, role, nth, a)]))
                 if k == "w":        # a short write whose retry fails, or is short again
                     for a2 in ((5, -1) if tier == "quick" else (5, 28, -1, 0)):
@@ -318,7 +318,7 @@ def zckdl_family(ck, rnd, tier, bd, wd, trace, owner):
             for (k, role), n in sorted(cnt.items()):
                 ks = range(1, n + 1) if (tier == "thorough" or n <= 8) else sorted(set([1, 2, 3, n - 1, n, n // 2] + rnd.sample(range(1, n + 1), 4)))
                 for nth in ks:
-                    for a in ([5, 4] if tier == "quick" else ERRS) + ([-1] if k in "rw" else []):
+                    for a in ([5, 4] if tier == "quick" else ERRS) + ([-1] if k in "rw" else []) + ([0] if k == "r" else []):
                         faults.append((ti, [(k, role, nth, a)]))
                     if k == "w" and (tier != "quick" or nth in (1, 2, n)):
                         faults.append((ti, [(k, role, nth, -1), (k, role, nth + 1, 5)]))
